@@ -358,6 +358,145 @@ def buffers_guarded(prog, res):
     return n
 
 
+def shape_rules(prog, res, rule="R-SHAPE"):
+    """After mutation analysis of simulated.camera.c:
+    * compute_strides: strides[0] = 1 and strides[i] = strides[i-1] * dims[i-1]
+      for i = 1..3 (index forms by the linear domain, loop canonical);
+    * every function that assigns the dims of an ImageShape and reports it
+      recomputes the strides afterwards (compute_strides on every path from the
+      dims store to the exit);
+    * the in-place binning loop halves b, w and h together on every iteration
+      and hands the current (w, h) to bin2;
+    * simcam_close_camera stops the streamer before it frees the buffers."""
+    from .. import linear as L
+    f = prog.func("compute_strides")
+    res.touched(f)
+    loops = paths.natural_loops(f)
+    problems = []
+    if len(loops) != 1:
+        raise AnalysisBroken("compute_strides: expected one loop")
+    head, body = loops[0]
+    problems += L.counted_loop_problems(prog, f, head, body, lambda an, s_: L.lconst(4), start=1)
+    an = L.Analysis(prog)
+    an.inline = False
+    # stores: st[0] = 1 before the loop; in the loop st[i] = st[i-1] * dims[i-1]
+    pre_ok = False
+    body_ok = False
+    for b, i, st_ in f.all_stmts():
+        for lv, op, rhs, w in ir.writes_of(st_):
+            l0 = ir.strip(lv)
+            if l0.get("k") != "idx" or op != "=":
+                continue
+            if b.id not in body:
+                if ir.is_const(l0["i"], 0) and ir.is_const(rhs, 1):
+                    pre_ok = True
+            else:
+                r0 = ir.strip(rhs)
+                if isinstance(r0, dict) and r0.get("k") == "bin" and r0.get("op") == "*":
+                    a, c = ir.strip(r0["l"]), ir.strip(r0["r"])
+                    st0 = L.State()
+                    iv = an.eval(f, l0["i"], st0)[0][0]
+
+                    def idx_is(x, base_same_as, delta):
+                        if not (isinstance(x, dict) and x.get("k") == "idx"):
+                            return False
+                        v = an.eval(f, x["i"], st0)[0][0]
+                        same = ir.render(ir.strip(x["b"])) == ir.render(ir.strip(base_same_as["b"])) if base_same_as else True
+                        return same and L.lsub(v, iv) == L.lconst(delta)
+                    for x, y in ((a, c), (c, a)):
+                        if idx_is(x, l0, -1) and idx_is(y, None, -1) and ir.render(ir.strip(y["b"])) != ir.render(ir.strip(l0["b"])):
+                            body_ok = True
+    if not pre_ok:
+        problems.append("strides[0] is not set to 1")
+    if not body_ok:
+        problems.append("the loop body is not strides[i] = strides[i-1] * dims[i-1]")
+    inst = "compute_strides: strides[0] = 1, strides[i] = strides[i-1] * dims[i-1] for i = 1..3"
+    if problems:
+        res.fail(rule, inst, "%s|compute_strides" % rule, f.loc(),
+                 "compute_strides: %s: the strides reported with a shape do not match its dimensions (or are written out of bounds)" % "; ".join(sorted(set(problems))))
+    else:
+        res.oblige(rule, inst, True, "", f.loc())
+    # dims assigned => strides recomputed
+    for g in prog.all_funcs():
+        if not g.file.endswith("simulated.camera.c") or not g.blocks or g.name == "compute_strides":
+            continue
+        for b, i, st_ in g.all_stmts():
+            for lv, op, rhs, w in ir.writes_of(st_):
+                p_ = ir.ap(lv) or ""
+                if p_.endswith("->dims") or p_.endswith(".dims"):
+                    ok, wit = paths.all_paths_pass(g, (b.id, i), "exit",
+                                                   paths.through_callees(prog, g, lambda q: any(c.get("fn") == "compute_strides" for c in ir.calls_in(q))))
+                    res.touched(g)
+                    inst = "%s: strides are recomputed after %s is assigned" % (g.name, p_)
+                    if ok:
+                        res.oblige(rule, inst, True, "", g.loc(st_))
+                    else:
+                        res.fail(rule, inst, "%s|%s|strides-after-dims" % (rule, g.name), g.loc(st_),
+                                 "%s assigns %s and can return without compute_strides: the shape is reported with the strides of the previous dimensions" % (g.name, p_))
+    # the full-resolution shape carries the pixel type of the reported shape
+    cf = prog.func("compute_full_resolution_shape_and_offset")
+    res.touched(cf)
+    shp = [p for p in cf.params if p.get("r") == "ImageShape" and p.get("pd")]
+    okt = bool(shp) and paths.all_paths_pass(cf, "entry", "exit", lambda q: any(
+        lv.get("k") == "mem" and lv.get("f") == "type" and isinstance(ir.strip(lv["b"]), dict) and ir.strip(lv["b"]).get("id") == shp[0]["id"] and
+        isinstance(rhs, dict) and any(y.get("k") == "mem" and y.get("f") in ("type", "pixel_type") for y in ir.walk(rhs))
+        for lv, op, rhs, w in ir.writes_of(q)))[0]
+    inst = "compute_full_resolution_shape_and_offset sets the pixel type of the full-resolution shape"
+    if okt:
+        res.oblige(rule, inst, True, "", cf.loc())
+    else:
+        res.fail(rule, inst, "%s|compute_full|type" % rule, cf.loc(),
+                 "the full-resolution shape that sizes both buffers is left without the camera's pixel type: the buffers are sized for 1-byte pixels while wider ones are rendered")
+    # binning loop
+    st = prog.func("simulated_camera_streamer_thread")
+    res.touched(st)
+    binc = [(b.id, i, c) for b, i, s_ in st.all_stmts() for c in ir.calls_in(s_) if c.get("fn") == "bin2"]
+    if not binc:
+        raise AnalysisBroken("the streamer no longer bins in place (bin2)")
+    for bid, i, c in binc:
+        loop = paths.innermost_loop(st, bid)
+        heads = [h for h, bd in paths.natural_loops(st) if loop and bd == loop]
+        problems = []
+        if not heads:
+            problems.append("bin2 is not called in a loop")
+        else:
+            hd = heads[0]
+            cn = st.blocks[hd].cond_node()
+            cvars = {y["id"] for y in ir.walk(cn) if isinstance(y, dict) and y.get("k") == "var"} if cn is not None else set()
+            dims = [ir.strip(a) for a in c["args"][1:3]]
+            ids = [d_["id"] for d_ in dims if isinstance(d_, dict) and d_.get("k") == "var"]
+            if len(ids) != 2:
+                problems.append("bin2 is not given the loop's current width and height")
+            for vid, what in [(v, "the loop counter") for v in cvars] + [(v, "a dimension passed to bin2") for v in ids]:
+                def halves(q, vid=vid):
+                    for lv, op, rhs, w in ir.writes_of(q):
+                        if lv.get("k") == "var" and lv["id"] == vid and (op == ">>=" and ir.is_const(rhs, 1) or
+                                                                       op == "/=" and ir.is_const(rhs, 2)):
+                            return True
+                    return False
+                dst = {(hd, 0)} if st.blocks[hd].stmts else {(hd, -1)}
+                ok, wit = paths.all_paths_pass(st, (bid, i), dst, halves)
+                if not ok:
+                    problems.append("%s is not halved on every iteration" % what)
+        inst = "streamer: the binning loop halves its counter, width and height together"
+        if problems:
+            res.fail(rule, inst, "%s|streamer|bin-loop" % rule, st.loc(),
+                     "the in-place binning loop: %s: bin2 runs with the wrong extent or the loop does not end" % "; ".join(sorted(set(problems))))
+        else:
+            res.oblige(rule, inst, True, "", st.loc())
+    # close stops first
+    cl = prog.func("simcam_close_camera")
+    res.touched(cl)
+    frees = {(b.id, i) for b, i, s_ in cl.all_stmts() if any(c.get("fn") == "free" for c in ir.calls_in(s_))}
+    ok = bool(frees) and paths.all_paths_pass(cl, "entry", frees, paths.through_callees(prog, cl, lambda q: any(c.get("fn") == "simcam_stop" for c in ir.calls_in(q))))[0]
+    inst = "simcam_close_camera stops the streamer before releasing the buffers"
+    if ok:
+        res.oblige(rule, inst, True, "", cl.loc())
+    else:
+        res.fail(rule, inst, "%s|simcam_close_camera|stop-first" % rule, cl.loc(),
+                 "simcam_close_camera can free the image buffers while the streamer thread is still rendering into them")
+
+
 def run(ctx, res):
     prog = ctx.program()
     res.extra["explanation"] = EXPLANATION
@@ -374,6 +513,8 @@ def run(ctx, res):
     guards(prog, res)
     pixel_type_mask(prog, res)
     m = buffers_guarded(prog, res)
+    res.guard(shape_rules, prog, res)
+    res.require_min("R-SHAPE", 6)
     res.require_min("O-PROV", 4)
     res.require_min("R-REALLOC-COVERS", 2)
     res.require_min("GUARD-DOM", 2)
